@@ -95,7 +95,9 @@ def load_known() -> Dict[str, Any]:
 
 def match_known(f: Finding, known) -> Optional[dict]:
     for k in known.get('findings', []):
-        if k['property'] == f.prop and k['rule'] == f.rule and k['construct'] == f.construct:
+        # `also`: the same defect, reported by the same rule function when it runs under another property (with that rule id)
+        if k['construct'] == f.construct and (
+                (k['property'] == f.prop and k['rule'] == f.rule) or [f.prop, f.rule] in k.get('also', [])):
             return k
     return None
 
